@@ -154,10 +154,10 @@ class Slice:
 
 def run(ctx):
     chk = ctx.chk
-    chk.rule('Q1', 'the data source calls its documented system query (with the documented argument)', floor=25)
-    chk.rule('Q2', 'no other query of the same confusable family (real/effective uid/gid, pid/ppid/sid/tid) is used', floor=15)
+    chk.rule('Q1', 'the data source calls its documented system query (with the documented argument)', floor=18)
+    chk.rule('Q2', 'no other query of the same confusable family (real/effective uid/gid, pid/ppid/sid/tid) is used', floor=10)
     chk.rule('Q3', 'the emitted value is data-dependent on that query (for struct results: on the documented member) and on '
-                   'no forbidden member; name lookups are fed by the documented id', floor=25)
+                   'no forbidden member; name lookups are fed by the documented id', floor=18)
     chk.rule('Q4', 'numeric ids are printed with an integer conversion of matching signedness', floor=8)
     chk.rule('W1', 'root process name: for each class of parent pid (1 = init, 0 = top of a pid namespace / init itself, '
                    'failure, any other) the walk takes the documented step: name of the current process, "(unknown)", or '
